@@ -240,7 +240,8 @@ async def build_real(ctx, desc, workdir):
                                    connector_ports=dict({dconf.name: deploy.get_output_port()},
                                                         **{dc.name: dstep.get_output_port() for dc, dstep in extra.values()}),
                                    binding_config=binding, job_port=jport,
-                                   **({"output_directory": desc["remote"]["pin_output"]} if desc.get("remote", {}).get("pin_output") else {}))
+                                   **({"output_directory": desc["remote"]["pin_output"]} if desc.get("remote", {}).get("pin_output") else
+                                      ({"output_directory": os.path.join(os.path.dirname(workdir), "pinned-out")} if desc.get("pin_local") else {})))
             ex = wf.create_step(cls=ExecuteStep, name=name, job_port=jport)
             ex.command = C["HCommand"](ex)
             for p in s["ins"]:
@@ -505,6 +506,43 @@ async def run_once(desc, seed=None, K=3, timeout=60.0, gate=None, keep_db=False,
             n: [({"k": "term", "st": t.value.name.lower()} if isinstance(t, TerminationToken)
                  else {"k": "tok", "tag": tagseq(t.tag), "val": tokval(t) if not hasattr(t.value, "name") else "job"})
                 for t in p.token_list] for n, p in P.items()}
+        if int(desc.get("rounds", 1)) > 1 and out["error"] is None:
+            # C15 (JobDirs!Lose): the directories the binding pins are lost on their locations and the data manager is
+            # told so (invalidate_location, what FileToken.is_available does for a path that has gone); then the same
+            # job steps are scheduled again in the same context (what a rollback or a second run does)
+            import copy
+            import shutil
+            seen = {}
+            for e in [x for x in rec.ev if x["ev"] == "put" and x.get("k") == "job"]:
+                for dname in e["dirs"]:
+                    seen.setdefault(dname, []).append(e["job"])
+            shared = sorted(dn for dn, js in seen.items() if len(js) > 1)      # pinned = handed to several jobs
+            done = set()
+            for e in [x for x in rec.ev if x["ev"] == "put" and x.get("k") == "job"]:
+                for loc in ctx.scheduler.get_locations(e["job"]):
+                    for dname in shared:
+                        if dname in e["dirs"] and (loc.deployment, loc.name, dname) not in done:
+                            done.add((loc.deployment, loc.name, dname))
+                            if loc.local:
+                                shutil.rmtree(dname, ignore_errors=True)
+                            ctx.data_manager.invalidate_location(loc, dname)
+                            rec.ev.append({"ev": "lose", "loc": "%s/%s" % (loc.deployment, loc.name), "dir": dname})
+            d2 = copy.deepcopy(desc)
+            d2["name"] = desc.get("name", "w") + "-r2"
+            ren = {s0["name"]: s0["name"] + "_r2" for s0 in d2["steps"] if s0["kind"] == "exec"}
+            for s0 in d2["steps"]:
+                s0["name"] = ren.get(s0["name"], s0["name"])
+            wf2, P2, _ = await build_real(ctx, d2, os.path.join(tmp, "work"))
+            rec.wrap_step_runs(wf2)
+            try:
+                await asyncio.wait_for(StreamFlowExecutor(wf2).run(), aio.scaled(timeout))
+                rec.ev.append({"ev": "return2"})
+            except asyncio.TimeoutError:
+                out["error"] = "HANG2"
+            except asyncio.CancelledError:
+                raise
+            except Exception as e2:
+                out["error"] = "round2:" + type(e2).__name__
         out["events"] = list(rec.ev)
         out["realnames"] = realnames
         out["port_ids"] = {n: p.persistent_id for n, p in P.items()}
